@@ -192,8 +192,15 @@ def judge(w, B1, T1, close_after):
     # ... and the node still serves honest peers exactly as a node that was never attacked does: the transcript's valid
     # block and transaction, delivered by the other honest connection, are accepted, stored and pooled
     if not bad and w.O.alive:
-        from skepticoin.networking.messages import DataMessage, DATA_BLOCK, DATA_TRANSACTION
+        from skepticoin.networking.messages import DataMessage, DATA_BLOCK, DATA_TRANSACTION, InventoryMessage, InventoryItem
         if B1.bid not in a['state'] and entered_valid is None:
+            # first the pull path: an honest inventory naming the block must make the node ask for it
+            w.O.received()
+            w.O.send(InventoryMessage([InventoryItem(DATA_BLOCK, B1.bid)]), in_response_to=7)
+            asked = [m for hh, m in w.O.received() if type(m).__name__ == 'GetDataMessage' and m.hash == B1.bid]
+            if not asked:
+                bad.append(('honest-delivery-impaired', "after the attack the node does not request a block that an honest peer "
+                            "lists in its inventory"))
             w.net.clock.t = max(w.net.clock.t, B1.ts)
             w.O.send(DataMessage(DATA_BLOCK, world.from_wire(B1.block)))
             s2 = w.snapshot()
@@ -338,6 +345,13 @@ def mutant_families(ctx, phase):
                     continue
                 pl = hdr53 + b'\x00\x04' + b'\x00' + b'\x00\x00' + enc.enc_block(c.block)
                 yield 'broken-block', c.name, b''.join(hello) + frame(pl), False, F1
+        # the genuine header of the transcript's valid block over a tampered body (same id, refused on the merkle root)
+        from skepticoin.datatypes import Block as _B
+        B1n = w.uni.get(H.path + ('e',))
+        cb0 = B1n.block.transactions[0]
+        cbt = world.coinbase_tx(B1n.height, [(o.value, o.public_key) for o in cb0.outputs], b'tampered')
+        yield 'broken-block', 'tampered-body-under-the-valid-blocks-header', b''.join(hello) + frame(
+            hdr53 + b'\x00\x04\x00\x00\x00' + enc.enc_block(_B(B1n.block.header, [cbt]))), False, F3
         # a block that states a height far beyond its chain (evidence cannot even be recomputed)
         far = world.assemble(H, [], K[4], H.ts + 120, height=H.height + 1000, no_evidence=True)
         yield 'broken-block', 'height-far-beyond-chain', b''.join(hello) + frame(
